@@ -130,6 +130,7 @@ func styles(t *rapid.T) gen.StyleOpts {
 	if rapid.Bool().Draw(t, "richStyles") {
 		o := gen.AllStyles()
 		o.CRLF, o.NoFinalNewline = true, true
+		o.Aliases = true
 		return o
 	}
 	return gen.StyleOpts{FlowMaps: true, QuotedKeys: true}
@@ -164,6 +165,7 @@ func genCase(t *rapid.T) Case {
 	for _, g := range d.Groups {
 		groups.Items = append(groups.Items, s.Group(g))
 	}
+	s.Alias(groups)
 	root := &gen.Node{Kind: gen.MapKind, Pairs: []gen.Pair{{Key: gen.P("groups"), Val: groups}}}
 	p := &gen.Perturber{T: t}
 	nm := rapid.SampledFrom([]int{0, 1, 1, 1, 2, 2, 3}).Draw(t, "nmut")
